@@ -581,7 +581,7 @@ package gkvlite
 //@   modifies nloc.loc, nloc.node, nloc.next, G.freeNodeLocs, AllocStats.CurFreeNodeLocs, AllocStats.FreeNodeLocs, ghost tvs
 //@   postulate freed-slot-denotes-nothing: tvs == ((nloc == nil || nloc == emptyNodeLoc) ? old(tvs) : upd(old(tvs), nloc, leafTree()))
 //@   ensures [C10] nloc != nil && nloc != emptyNodeLoc ==> nloc.loc == nil && nloc.node == nil && nloc.next == old(freeNodeLocs) && freeNodeLocs == nloc
-//@   ensures [C10] sentinel-kept: nloc == nil || nloc == emptyNodeLoc ==> freeNodeLocs == old(freeNodeLocs)
+//@   ensures [C10] sentinel-kept: nloc == nil || nloc == emptyNodeLoc ==> freeNodeLocs == old(freeNodeLocs) && (nloc != nil ==> nloc.next == old(nloc.next) && nloc.loc == old(nloc.loc) && nloc.node == old(nloc.node))
 
 //@ func (*Collection).mkRootNodeLoc
 //@   props C10 C05 C04
@@ -1029,7 +1029,47 @@ package gkvlite
 //@   ensures [C01] right-is-the-greater-keys: result3 == nil ==> bst(tvs[result2]) && (forall k {mem(k, tvs[result2])} {mem(k, old(tvs)[n])} :: mem(k, tvs[result2]) == (mem(k, old(tvs)[n]) && k > ord(s))) && (forall k {itemAt(k, tvs[result2])} :: mem(k, tvs[result2]) ==> itemAt(k, tvs[result2]) == itemAt(k, old(tvs)[n]))
 //@   ensures [C01] middle-is-the-key-if-present: result3 == nil ==> (isLeaf(tvs[result1]) == !mem(ord(s), old(tvs)[n])) && (!isLeaf(tvs[result1]) ==> ikey(rootItem(tvs[result1])) == ord(s) && rootItem(tvs[result1]) == itemAt(ord(s), old(tvs)[n]))
 //@   ensures [C13] heap-order-kept: result3 == nil && hp(old(tvs)[n]) ==> hp(tvs[result0]) && hp(tvs[result2]) && rootPri(tvs[result0]) <= rootPri(old(tvs)[n]) && rootPri(tvs[result2]) <= rootPri(old(tvs)[n])
+//@   ensures [C13] exact-aggregates: result3 == nil ==> cnt(tvs[result0]) + cnt(tvs[result2]) + (isLeaf(tvs[result1]) ? 0 : 1) == cnt(old(tvs)[n]) && sumb(tvs[result0]) + sumb(tvs[result2]) + (isLeaf(tvs[result1]) ? 0 : ibytes(rootItem(tvs[result1]))) == sumb(old(tvs)[n])
 //@   ensures [C01] older-slots-keep-their-denotation: (forall x {tvs[x]} :: !fresh(x) ==> tvs[x] == old(tvs)[x]) && (forall y {ias[y]} :: !fresh(y) ==> ias[y] == old(ias)[y])
 //@   ensures [C19] no-value-bytes: io.valbytes == old(io.valbytes)
 //@   ensures [C01] older-item-slots-stay-occupied: forall y {itemLoc.loc[y]} {itemLoc.item[y]} :: !fresh(y) ==> itemLoc.loc[y] == old(itemLoc.loc[y]) && (old(itemLoc.item[y]) != nil ==> itemLoc.item[y] != nil)
+//@   ensures [C10] older-handles-keep-their-link: forall x {nodeLoc.next[x]} :: !fresh(x) ==> nodeLoc.next[x] == old(nodeLoc.next[x])
 //@   ensures [C10] results-are-fresh-handles: (result0 == emptyNodeLoc || (fresh(result0) && result0.next == nil)) && (result1 == emptyNodeLoc || (fresh(result1) && result1.next == nil)) && (result2 == emptyNodeLoc || (fresh(result2) && result2.next == nil)) && (result0 == emptyNodeLoc || (result0 != result1 && result0 != result2)) && (result1 == emptyNodeLoc || result1 != result2)
+
+//@ func (*Store).join
+//@   props C01 C13 C07 C10 C19 C05 C15
+//@   from: treap.go doc ("join() assumes all keys from this treap should be less than keys from that treap") restated over abstract trees; C13 heap order and exact aggregates; C19 key-only
+//@   requires [C05,C18] nolocks: locks == emptyLocks()
+//@   requires o != nil && t != nil && t.store == o && t.compare != nil && t.rootLock != nil
+//@   requires [C01] search-trees: bst(tvs[this]) && bst(tvs[that])
+//@   requires [C01] this-below-that: forall a, b {mem(a, tvs[this]), mem(b, tvs[that])} :: mem(a, tvs[this]) && mem(b, tvs[that]) ==> a < b
+//@   modifies nodeLoc.loc, nodeLoc.node, nodeLoc.next, node.numNodes, node.numBytes, node.next, itemLoc.loc, itemLoc.item, o.nodeAllocs, G.freeNodes, G.freeNodeLocs, AllocStats.MkNodes, AllocStats.AllocNodes, AllocStats.CurFreeNodes, AllocStats.MkNodeLocs, AllocStats.AllocNodeLocs, AllocStats.CurFreeNodeLocs, AllocStats.FreeNodeLocs, new ploc.Offset, new ploc.Length, new Item.Key, new Item.Val, new Item.Priority, new Item.Transient, new mem.byte, ghost net, ghost tvs, ghost ias, ghost io.fails, ghost io.reads, ghost io.valbytes, ghost src
+//@   decreases cnt(tvs[this]) + cnt(tvs[that])
+//@   ensures [C07] E1: io.fails >= old(io.fails) && (io.fails > old(io.fails) ==> err != nil)
+//@   ensures [C07] result-never-nil: res != nil
+//@   ensures [C01] joined-is-the-union: err == nil ==> bst(tvs[res]) && (forall k {mem(k, tvs[res])} {mem(k, old(tvs)[this])} {mem(k, old(tvs)[that])} :: mem(k, tvs[res]) == (mem(k, old(tvs)[this]) || mem(k, old(tvs)[that]))) && (forall k {itemAt(k, tvs[res])} :: mem(k, tvs[res]) ==> itemAt(k, tvs[res]) == (mem(k, old(tvs)[this]) ? itemAt(k, old(tvs)[this]) : itemAt(k, old(tvs)[that])))
+//@   ensures [C13] exact-aggregates: err == nil ==> cnt(tvs[res]) == cnt(old(tvs)[this]) + cnt(old(tvs)[that]) && sumb(tvs[res]) == sumb(old(tvs)[this]) + sumb(old(tvs)[that])
+//@   ensures [C13] heap-order-kept: err == nil && hp(old(tvs)[this]) && hp(old(tvs)[that]) ==> hp(tvs[res]) && rootPri(tvs[res]) <= max(rootPri(old(tvs)[this]), rootPri(old(tvs)[that]))
+//@   ensures [C01] older-slots-keep-their-denotation: (forall x {tvs[x]} :: !fresh(x) ==> tvs[x] == old(tvs)[x]) && (forall y {ias[y]} :: !fresh(y) ==> ias[y] == old(ias)[y])
+//@   ensures [C01] older-item-slots-stay-occupied: forall y {itemLoc.loc[y]} {itemLoc.item[y]} :: !fresh(y) ==> itemLoc.loc[y] == old(itemLoc.loc[y]) && (old(itemLoc.item[y]) != nil ==> itemLoc.item[y] != nil)
+//@   ensures [C10] older-handles-keep-their-link: forall x {nodeLoc.next[x]} :: !fresh(x) ==> nodeLoc.next[x] == old(nodeLoc.next[x])
+//@   ensures [C10] result-is-a-fresh-handle: res == emptyNodeLoc || (fresh(res) && res.next == nil)
+//@   ensures [C19] no-value-bytes: io.valbytes == old(io.valbytes)
+
+//@ func (*Store).union
+//@   props C01 C13 C07 C10 C19 C05 C15
+//@   from: treap.go doc ("a treap that is the union of this treap and that treap", "the that node has precedence") restated over abstract trees; C13 heap order under the property's own condition (no key overwritten with a lower priority)
+//@   requires [C05,C18] nolocks: locks == emptyLocks()
+//@   requires o != nil && t != nil && t.store == o && t.compare != nil && t.rootLock != nil
+//@   requires [C01] search-trees: bst(tvs[this]) && bst(tvs[that])
+//@   modifies nodeLoc.loc, nodeLoc.node, nodeLoc.next, node.numNodes, node.numBytes, node.next, itemLoc.loc, itemLoc.item, o.nodeAllocs, G.freeNodes, G.freeNodeLocs, AllocStats.MkNodes, AllocStats.AllocNodes, AllocStats.CurFreeNodes, AllocStats.MkNodeLocs, AllocStats.AllocNodeLocs, AllocStats.CurFreeNodeLocs, AllocStats.FreeNodeLocs, new ploc.Offset, new ploc.Length, new Item.Key, new Item.Val, new Item.Priority, new Item.Transient, new mem.byte, ghost net, ghost tvs, ghost ias, ghost io.fails, ghost io.reads, ghost io.valbytes, ghost src
+//@   decreases cnt(tvs[this]) + cnt(tvs[that])
+//@   ensures [C07] E1: io.fails >= old(io.fails) && (io.fails > old(io.fails) ==> err != nil)
+//@   ensures [C07] result-never-nil: res != nil
+//@   ensures [C01] union-with-that-taking-precedence: err == nil ==> bst(tvs[res]) && (forall k {mem(k, tvs[res])} {mem(k, old(tvs)[this])} {mem(k, old(tvs)[that])} :: mem(k, tvs[res]) == (mem(k, old(tvs)[this]) || mem(k, old(tvs)[that]))) && (forall k {itemAt(k, tvs[res])} :: mem(k, tvs[res]) ==> itemAt(k, tvs[res]) == (mem(k, old(tvs)[that]) ? itemAt(k, old(tvs)[that]) : itemAt(k, old(tvs)[this])))
+//@   ensures [C13] heap-order-kept: err == nil && hp(old(tvs)[this]) && hp(old(tvs)[that]) && (forall k {itemAt(k, old(tvs)[that])} {itemAt(k, old(tvs)[this])} :: mem(k, old(tvs)[this]) && mem(k, old(tvs)[that]) ==> ipri(itemAt(k, old(tvs)[that])) >= ipri(itemAt(k, old(tvs)[this]))) ==> hp(tvs[res]) && rootPri(tvs[res]) <= max(rootPri(old(tvs)[this]), rootPri(old(tvs)[that]))
+//@   ensures [C01] older-slots-keep-their-denotation: (forall x {tvs[x]} :: !fresh(x) ==> tvs[x] == old(tvs)[x]) && (forall y {ias[y]} :: !fresh(y) ==> ias[y] == old(ias)[y])
+//@   ensures [C01] older-item-slots-stay-occupied: forall y {itemLoc.loc[y]} {itemLoc.item[y]} :: !fresh(y) ==> itemLoc.loc[y] == old(itemLoc.loc[y]) && (old(itemLoc.item[y]) != nil ==> itemLoc.item[y] != nil)
+//@   ensures [C10] older-handles-keep-their-link: forall x {nodeLoc.next[x]} :: !fresh(x) ==> nodeLoc.next[x] == old(nodeLoc.next[x])
+//@   ensures [C10] result-is-a-fresh-handle: res == emptyNodeLoc || (fresh(res) && res.next == nil)
+//@   ensures [C19] no-value-bytes: io.valbytes == old(io.valbytes)
